@@ -30,6 +30,11 @@ type C15Case struct {
 }
 
 var c15Extra = []string{
+	// one family name bound by @font-face to different font files in different documents; lengths in ex / ch
+	// depend on which file the name stands for in the document at hand
+	`<style>@font-face{font-family:shared;src:url(verif-font:AHEM____.TTF)}</style><p style="font:20px shared;width:10ex;height:3ch;background:red">Aex</p>`,
+	`<style>@font-face{font-family:shared;src:url(verif-font:DejaVuSans.ttf)}</style><p style="font:20px shared;width:10ex;height:3ch;background:blue">Dex</p>`,
+	`<style>@font-face{font-family:shared;src:url(verif-font:weasyprint.otf)}</style><p style="font:20px shared;width:10ex;margin-left:2ch;background:lime">Wex</p>`,
 	`<p lang="hu" style="hyphens:auto;width:6em;font-family:Ahem">asszonyság hosszú vissza</p>`,
 	`<p lang="en" style="hyphens:auto;width:5em">extraordinary hyphenation characteristics</p>`,
 	`<p lang="fr" style="hyphens:auto;width:5em">anticonstitutionnellement</p>`,
